@@ -166,6 +166,15 @@ func suiteT1cs(o *suiteOut, r *rng, tier string, n int) {
 		cat(hsbw, csInt(100), csInt(200), csOp(opSetcurrentpoint), csInt(10), csOp(opHlineto), csOp(opClosepath), end),
 		{}, {12}, {255}, {255, 0, 0}, {247}, {251}, {12, 99}, {2}, {15}, {14}, {11}, {10}, {139, 10},
 	}
+	// every multi-byte form cut short at every length: alone, after hsbw, after other operands, inside a subroutine
+	for _, form := range [][]byte{{255, 0, 0, 1, 0}, {255, 255, 255, 255, 255}, {247, 5}, {250, 255}, {251, 5}, {254, 255}, {12, 7}, {12, 12}} {
+		for k := 1; k < len(form); k++ {
+			cut := form[:k:k]
+			fixed = append(fixed, cut, cat(hsbw, cut), cat(hsbw, csInt(7), csInt(-300), cut))
+			csCase(o, [][]byte{cut}, cat(hsbw, csInt(0), csOp(opCallsubr), end), true)
+			o.count("truncated multi-byte forms")
+		}
+	}
 	for _, c := range fixed {
 		csCase(o, nil, c, true)
 		o.count("fixed charstrings")
